@@ -167,7 +167,7 @@ func (e *engine) runPath(sol *Solver, harness *ssa.Function, prefix []decision, 
 		eng: e, ts: NewTermStore(), sol: sol, prefix: prefix,
 		globals: map[*ssa.Global]*value{}, inited: map[*ssa.Package]bool{},
 		known: map[string]*Term{}, unwindMax: e.cfg.Unwind, splitMax: e.cfg.SplitMax,
-		maxInstr: e.cfg.MaxInstr, permuteMaps: e.cfg.PermuteMaps, exploring: e.cfg.Explore,
+		maxInstr: e.cfg.MaxInstr, permuteMaps: e.cfg.PermuteMaps, exploring: false,
 		preemptMax: e.cfg.PreemptMax, concrete: feed,
 	}
 	res = &pathResult{covers: map[string]bool{}, asserts: map[string]*assertRec{}, funcs: map[*ssa.Function]int64{}}
@@ -590,6 +590,7 @@ func (e *engine) runConcrete(spec, replayPath string) *harnessReport {
 	var rf struct {
 		Vars    []replayVar `json:"vars"`
 		Choices []int       `json:"choices"`
+		AllC    []int       `json:"all_structural_choices"`
 	}
 	if err := json.Unmarshal(b, &rf); err != nil {
 		rep.Problems = append(rep.Problems, err.Error())
@@ -601,7 +602,7 @@ func (e *engine) runConcrete(spec, replayPath string) *harnessReport {
 		return rep
 	}
 	defer sol.Close()
-	res := e.runPath(sol, h, nil, &concreteFeed{vars: rf.Vars, choices: rf.Choices})
+	res := e.runPath(sol, h, nil, &concreteFeed{vars: rf.Vars, choices: rf.Choices, allC: rf.AllC})
 	rep.Paths = 1
 	rep.Outcomes[res.outcome]++
 	rep.Observes = append(rep.Observes, res.observes)
